@@ -23,7 +23,9 @@ UNIT = 'zope.testrunner.layer.UnitTests'
 MAXSIZE = sys.maxsize
 LEVELS = [None, None, 1, 2, 3, 0, -1, MAXSIZE]
 OPTVECS = [[], ['--at-level=2'], ['--at-level=0'], ['--at-level=-1'], ['--all'], ['--only-level=2'],
-           ['--all', '--only-level=3'], ['-u'], ['-f'], ['-u', '-f'], ['--at-level=3', '-f'], ['--only-level=1', '-u']]
+           ['--all', '--only-level=3'], ['-u'], ['-f'], ['-u', '-f'], ['--at-level=3', '-f'], ['--only-level=1', '-u'],
+           # --all means every level wherever it stands among the options
+           ['--all', '--at-level=2'], ['--at-level=2', '--all'], ['--all', '--at-level=1', '-f'], ['--at-level=0', '--all']]
 
 
 def case_node(i, lvl, lay, lay_str=False):
